@@ -4,10 +4,13 @@
 package mc
 
 import (
+	"bytes"
+	"compress/gzip"
 	"crypto/sha256"
 	"encoding/hex"
 	"encoding/json"
 	"fmt"
+	"io"
 	"os"
 	"path/filepath"
 	"runtime"
@@ -266,7 +269,7 @@ func parallelFor(c *Ctx, n int, f func(i int)) bool {
 //	fixed: property=C04 <commit> <what failed>
 type Finding struct {
 	Prop, ID, Sig, CasesFile, Text string
-	cases                         map[string]bool // nil => signature-only match
+	cases                          map[string]bool // nil => signature-only match
 }
 
 func loadFindings() ([]Finding, error) {
@@ -304,6 +307,15 @@ func loadFindings() ([]Finding, error) {
 				cb, err := os.ReadFile(filepath.Join(VerifDir, cf))
 				if err != nil {
 					return nil, fmt.Errorf("known finding %s: %v", f.ID, err)
+				}
+				if strings.HasSuffix(cf, ".gz") {
+					zr, err := gzip.NewReader(bytes.NewReader(cb))
+					if err != nil {
+						return nil, fmt.Errorf("known finding %s: %v", f.ID, err)
+					}
+					if cb, err = io.ReadAll(zr); err != nil {
+						return nil, fmt.Errorf("known finding %s: %v", f.ID, err)
+					}
 				}
 				for _, h := range strings.Fields(string(cb)) {
 					f.cases[h] = true
